@@ -514,6 +514,9 @@ func TestC08Failures(t *testing.T) {
 			var nPromised int
 			fmt.Sscan(promised, &nPromised)
 			sent := c.Int("sentPermille", 1, 900) * nPromised / 1000
+			if c.Chance("headOnly", 1, 3) {
+				sent = 0 // the response head only
+			}
 			withLength := c.Bool("contentLength")
 			up.Handler = func(u *Up, w http.ResponseWriter, r *http.Request, rec *Recorded) {
 				if withLength {
@@ -532,8 +535,10 @@ func TestC08Failures(t *testing.T) {
 			if res.Err == nil && res.Status >= 200 && res.Status < 300 && len(res.Body) < nPromised {
 				c.Fatalf("C08 fabricated success: the upstream aborted after %d of %s bytes (Content-Length sent: %v), yet the client received a complete, well-formed %d response of %d bytes (entry %s, upstream %s)", sent, promised, withLength, res.Status, len(res.Body), entry.ID, kind)
 			}
-			if res.Err == nil && res.Status != 502 && !(res.Status >= 200 && res.Status < 300) {
-				c.Fatalf("C08: upstream aborted mid-body: answered %d", res.Status)
+			// whatever became of the transfer, a status line the client saw is the upstream's
+			// own (200) or piko's 502 - nothing else
+			if res.Status != 0 && res.Status != 200 && res.Status != 502 {
+				c.Fatalf("C08: the upstream answered 200 and aborted after %d of %s body bytes (Content-Length sent: %v); the client was shown status %d (transfer error: %v), which is neither the upstream's status nor a gateway error of piko's (entry %s, upstream %s)", sent, promised, withLength, res.Status, res.Err, entry.ID, kind)
 			}
 		case "slow":
 			extra := time.Duration(c.Int("extraMs", 200, 600)) * time.Millisecond
